@@ -56,7 +56,6 @@ func TestC12Shutdown(t *testing.T) {
 		h := newH(rt, "C12", sim.Options{Config: cfg})
 		state := rapid.SampledFrom([]string{"never-connected", "dialing", "awaiting-connack", "resending", "online-idle", "online-holding",
 			"writers-parked", "offline-after-failed-connect", "reconnect-pending", "already-closed", "remote-closed-unnoticed"}).Draw(rt, "state")
-		h.PipeLike = rapid.Bool().Draw(rt, "pipeLikeConnections")
 		h.Act("state %s", state)
 		nontrivial := state != "online-idle" && state != "never-connected"
 		defer func() { h.finish(nontrivial) }()
